@@ -1093,6 +1093,50 @@ def rule_combinators(chk: Check):
         chk.require(not bad, R, "Parser.gathered", f.where,
                     "`gathered` must return the first element followed by the separated rest, leave a trailing separator unconsumed and "
                     f"restore the position on failure{': (stream, form, got, position, expected, expected position) ' + str(bad[0]) if bad else ''}")
+    # a forced token `&&x`: the token when it is there, otherwise an error raised on the spot — in either pass (an alternative that
+    # merely fails lets a later alternative match, which is not what `&&` means)
+    import types as _ty
+    from .c17 import Crash as _Cr4, EvalError as _Ev4, Marker as _Mk, _mini_eval as _mini4
+    f = fn("Parser.expect_forced")
+    chk.count(R)
+    bad, und = [], ""
+    params = [a.arg for a in f.node.args.args][1:]
+    for pass2 in (False, True):
+        for present in (False, True):
+            for vi in ((3, 10), (3, 11), (3, 12)):
+                tokv = _ty.SimpleNamespace(type=("Token", "NAME"), string="x", start=(1, 0), end=(1, 1))
+                last = _ty.SimpleNamespace(type=("Token", "NEWLINE"), string="\n", start=(1, 4), end=(1, 5))
+
+                def boom(*a, **k):
+                    raise _Mk("syntax error")
+                me = _ty.SimpleNamespace(call_invalid_rules=pass2, _tokenizer=_ty.SimpleNamespace(diagnose=lambda: last),
+                                         raise_raw_syntax_error=boom, raise_syntax_error=boom, raise_syntax_error_known_location=boom,
+                                         raise_syntax_error_known_range=boom)
+                env = {"self": me, "sys": _ty.SimpleNamespace(version_info=vi), "Token": _ty.SimpleNamespace(NEWLINE=("Token", "NEWLINE"))}
+                if len(params) >= 1:
+                    env[params[0]] = tokv if present else None
+                if len(params) >= 2:
+                    env[params[1]] = "')'"
+                try:
+                    got = _mini4(f.node, env, {"diagnose", "raise_raw_syntax_error", "raise_syntax_error", "raise_syntax_error_known_location",
+                                               "raise_syntax_error_known_range"})
+                    outcome = ("returns", got is tokv)
+                except _Mk:
+                    outcome = ("raises", True)
+                except _Cr4 as e:
+                    outcome = ("crash", str(e))
+                except _Ev4 as e:
+                    und = str(e)
+                    break
+                want = ("returns", True) if present else ("raises", True)
+                if outcome != want:
+                    bad.append((pass2, present, vi, outcome))
+    if und:
+        chk.undecided(R, "Parser.expect_forced", f.where, f"not evaluable: {und}")
+    else:
+        chk.require(not bad, R, "Parser.expect_forced", f.where,
+                    "`expect_forced` must return the token when it matched and raise a syntax error when it did not, whatever the pass: "
+                    f"(diagnostic pass, token present, interpreter version, outcome) {bad[:2]}")
     rule_is_blank(chk, R)
     # position bookkeeping of the token cache
     f = fn("Tokenizer.getnext")
